@@ -170,3 +170,18 @@ Example slice_regen_example :
   /\ gen_decorated_list_slice [1; 3; 5; 5; 9]%Z None (Some 0%Z) false = (0, 0)
   /\ gen_decorated_list_slice [0; 0; 5]%Z None (Some 0%Z) false = (0, 2).
 Proof. vm_compute. repeat split. Qed.
+
+(* ---------------------------------------------------------------- consequence for the regenerated code itself *)
+From DRF Require Import Proofs.ListingProofs.
+
+(* On a list in ascending time order the indices computed by the code regenerated from list_drf.py select exactly
+   the entries inside the window, preceded (forward fill) by the last entry before the start when no entry is
+   stamped with the start time itself. *)
+Theorem regenerated_slice_window_exact : forall (A : Type) (time : A -> Z) l st en ff,
+  tsorted time l -> window_wf st en ->
+  snd (cut l (gen_decorated_list_slice (map time l) st en ff)) = ffpre time ff st l ++ filter (wok time st en) l.
+Proof.
+  intros A time l st en ff Hs Hw.
+  rewrite <- (proj1 (decorated_list_slice_regen time l st en ff)).
+  apply slice_sorted; assumption.
+Qed.
